@@ -298,3 +298,454 @@ class MonC01(Monitor):
 
 MUT_TIMELINE = {"declare", "detmap", "target", "add", "adddmm", "addeom", "delay", "align", "eomon", "eommod", "eomoff"}
 MONITORS["C01"] = MonC01
+
+
+# ==========================================================================
+def strip_for_cmp(snap: dict) -> dict:
+    return snap
+
+
+class MonC09(Monitor):
+    """A sequence is exactly the effect of its successful calls."""
+
+    prop = "C09"
+    READ_ONLY = {"dur", "est", "pref"}
+
+    def begin(self, ls):
+        self.n = 0
+        self.tainted = False   # a non-atomic failure happened: the state is no longer a function
+                               # of the successful calls, which that failure already reports
+
+    def post(self, ls, st):
+        fails = []
+        k = st.op["k"]
+        self.n += 1
+        # a call that raises leaves the sequence exactly as it was
+        if st.real[0] == "err" and st.pre != st.post:
+            from realcode import diff_snap
+
+            d = diff_snap(st.pre, st.post)
+            what = "timeline" if "/slots" in d or "/eom" in d else ("refs" if "/refs" in d else "flags")
+            self.tainted = True
+            fails.append(self.F("failed-call-not-atomic", f"{k} raised {st.real[1]} but changed the sequence: {d}",
+                                op=k, err=st.real[1], what=what))
+        # read-only operations never change it
+        if k in self.READ_ONLY and st.real[0] == "ok" and st.pre != st.post:
+            fails.append(self.F("query-not-pure", f"{k} changed the sequence", op=k))
+        if self.n % 5 == 0:
+            fails += self.readonly_battery(ls, st)
+        return fails
+
+    def readonly_battery(self, ls, st):
+        """str / sample / durations / serialisation must not change the sequence."""
+        fails = []
+        seq = ls.real.seq
+        before = ls.real.snapshot()
+        calls_before = repr([(c.name, c.args, sorted(c.kwargs.items(), key=str)) for c in seq._calls[1:]])
+        with warnings.catch_warnings():
+            warnings.simplefilter("ignore")
+            for name, fn in (
+                ("str", lambda: str(seq)),
+                ("sample", lambda: __import__("pulser.sampler", fromlist=["sample"]).sample(seq)),
+                ("get_duration", lambda: seq.get_duration(include_fall_time=True)),
+                ("to_abstract_repr", lambda: seq.to_abstract_repr()),
+                ("_serialize", lambda: seq._serialize()),
+            ):
+                try:
+                    fn()
+                except Exception:
+                    pass
+                after = ls.real.snapshot()
+                calls_after = repr([(c.name, c.args, sorted(c.kwargs.items(), key=str)) for c in seq._calls[1:]])
+                if after != before:
+                    fails.append(self.F("readonly-changes-state", f"{name} changed the sequence", op=name))
+                    before = after
+                if calls_after != calls_before:
+                    fails.append(self.F("readonly-changes-calls", f"{name} changed the stored calls", op=name))
+                    calls_before = calls_after
+        return fails
+
+    def end(self, ls):
+        """The state is reproducible from the record of successful calls."""
+        fails = []
+        seq = ls.real.seq
+        if seq.is_parametrized() or not seq._schedule or self.tainted:
+            return fails
+        orig = ls.real.snapshot()
+        from realcode import RealSeq, diff_snap
+
+        def snap_of(other):
+            r = RealSeq.__new__(RealSeq)
+            r.dev = ls.real.dev
+            r.seq = other
+            return r.snapshot()
+
+        with warnings.catch_warnings():
+            warnings.simplefilter("ignore")
+            for name, fn in (
+                ("build", lambda: seq.build()),
+                ("switch_register", lambda: seq.switch_register(ls.real.dev.register)),
+            ):
+                try:
+                    other = fn()
+                except Exception as e:  # noqa: BLE001
+                    fails.append(self.F("replay-raises", f"{name} raised {type(e).__name__}: {str(e)[:80]}", op=name))
+                    continue
+                d = diff_snap(snap_of(other), orig, "", 1e-9)
+                if d:
+                    fails.append(self.F("replay-differs", f"{name} gives a different sequence: {d}", op=name))
+        return fails
+
+
+MONITORS["C09"] = MonC09
+
+
+# ==========================================================================
+class MonC13(Monitor):
+    """Which building operations are accepted follows the documented typestate.
+
+    A shadow of the documented *mode* is kept from the successful calls only; the
+    typestate part of every verdict is predicted from it and compared."""
+
+    prop = "C13"
+    TIMELINE = {"declare", "detmap", "target", "add", "adddmm", "addeom", "delay", "align",
+                "eomon", "eommod", "eomoff", "measure"}
+
+    def begin(self, ls):
+        spec = ls.dev.spec
+        self.spec = spec
+        self.reusable = bool(spec.get("reusable"))
+        self.decl = {}          # wire name -> dict(id, dmm, local, eom, in_eom, has_target, xy)
+        self.measured = False
+        self.in_xy = False
+        self.in_ising = False
+
+    def expected(self, op):
+        """Typestate verdict predicted from the documented mode: None (no typestate
+        objection) or the name of the rule that must refuse the call."""
+        k = op["k"]
+        if k in self.TIMELINE and self.measured:
+            return "measured"
+        if k == "declare":
+            if op["ch"] in self.decl:
+                return "nameInUse"
+            if op["id"] < len(self.spec["channels"]):
+                c = self.spec["channels"][op["id"]]
+                xy = c["kind"] == "microwave"
+                if (self.in_xy and not xy) or (self.in_ising and xy):
+                    return "xyConflict"
+                used = any((not d["dmm"]) and d["id"] == op["id"] for d in self.decl.values())
+                if used and not self.reusable:
+                    return "notAvailable"
+            return None
+        if k == "detmap":
+            if op["id"] < len(self.spec.get("dmms", [])):
+                if self.in_xy:
+                    return "xyConflict"
+                used = any(d["dmm"] and d["id"] == op["id"] for d in self.decl.values())
+                if used and not self.reusable:
+                    return "notAvailable"
+            return None
+        ch = op.get("ch")
+        if k in ("target", "add", "adddmm", "addeom", "delay", "eomon", "eommod", "eomoff", "est") or (
+                k == "dur" and ch is not None):
+            d = self.decl.get(ch)
+            if d is None:
+                return "notDeclared"
+            if k in ("target", "add") and d["in_eom"]:
+                return "inEom"
+            if k in ("addeom", "eommod", "eomoff") and not d["in_eom"]:
+                return "notInEom"
+            if k == "eomon" and d["in_eom"]:
+                return "alreadyInEom"
+        return None
+
+    def post(self, ls, st):
+        fails = []
+        op = st.op
+        k = op["k"]
+        exp = self.expected(op)
+        got = st.real[1] if st.real[0] == "err" else None
+        got_ts = got if got in TYPESTATE_ERRS else None
+        if exp is not None and st.real[0] == "ok":
+            fails.append(self.F("accepted-against-typestate", f"{k} accepted although the mode requires '{exp}'",
+                                op=k, rule=exp))
+        elif exp is not None and got_ts is None:
+            # refused, but for an argument reason that is checked earlier: fine
+            pass
+        elif exp is None and got_ts is not None and got_ts not in ("noTarget",):
+            fails.append(self.F("refused-against-typestate", f"{k} refused with '{got_ts}' although the mode allows it",
+                                op=k, rule=got_ts))
+        elif exp is not None and got_ts is not None and exp != got_ts and {exp, got_ts} != {"notAvailable", "xyConflict"}:
+            # both refuse; which rule fires first is not part of the property
+            pass
+        # local channel needs a target before its first pulse
+        if k in ("add", "addeom") and st.real[0] == "ok":
+            d = self.decl.get(op["ch"])
+            if d is not None and d["local"] and not d["has_target"]:
+                fails.append(self.F("pulse-without-target", f"{k} accepted on a local channel without target", op=k))
+        # update the shadow mode from successful calls (from observable API facts only)
+        seq = ls.real.seq
+        if st.real[0] == "ok" or True:
+            self.measured = seq.is_measured()
+            decl = {}
+            for name, sch in seq._schedule.items():
+                w = wire_name(name)
+                is_dmm = isinstance(sch.channel_obj, DMM)
+                cid = int(sch.channel_id.split("_")[1]) if is_dmm else ls.dev.chan_ids.index(sch.channel_id)
+                decl[w] = dict(id=cid, dmm=is_dmm, local=sch.channel_obj.addressing == "Local",
+                               in_eom=seq.is_in_eom_mode(name) if not seq.is_parametrized() else False,
+                               has_target=bool(sch.slots))
+            self.decl = decl
+            self.in_xy = any(self.spec["channels"][d["id"]]["kind"] == "microwave" for d in decl.values() if not d["dmm"])
+            self.in_ising = any(d["dmm"] or self.spec["channels"][d["id"]]["kind"] != "microwave" for d in decl.values())
+        return fails
+
+
+    def end(self, ls):
+        """After measurement every timeline-changing call is refused — probed through the whole
+        public API (including calls the model does not cover, e.g. config_slm_mask)."""
+        fails = []
+        seq = ls.real.seq
+        if seq.is_parametrized() or not seq._schedule:
+            return fails
+        with warnings.catch_warnings():
+            warnings.simplefilter("ignore")
+            if not seq.is_measured():
+                basis = "XY" if seq._in_xy else next(iter(seq._basis_ref), None)
+                try:
+                    seq.measure(basis)
+                except Exception:
+                    return fails
+            names = list(seq._schedule)
+            nm = names[0]
+            q0 = ls.dev.qids[0]
+            pulse = Pulse.ConstantPulse(max(seq._schedule[nm].channel_obj.min_duration, 16) * 4, 0.0, 0.0, 0.0)
+            free = [i for i in ls.dev.chan_ids if i not in {s.channel_id for s in seq._schedule.values()}]
+            probes = [
+                ("declare_channel", lambda: seq.declare_channel("probe_new", (free or ls.dev.chan_ids)[0])),
+                ("target", lambda: seq.target(q0, nm)),
+                ("add", lambda: seq.add(pulse, nm)),
+                ("delay", lambda: seq.delay(pulse.duration, nm)),
+                ("align", lambda: seq.align(*names[:2]) if len(names) > 1 else seq.delay(pulse.duration, nm)),
+                ("enable_eom_mode", lambda: seq.enable_eom_mode(nm, 1.0, 0.0)),
+                ("disable_eom_mode", lambda: seq.disable_eom_mode(nm)),
+                ("add_eom_pulse", lambda: seq.add_eom_pulse(nm, pulse.duration, 0.0)),
+                ("modify_eom_setpoint", lambda: seq.modify_eom_setpoint(nm, 1.0, 0.0)),
+                ("measure", lambda: seq.measure(seq.get_measurement_basis())),
+            ]
+            if ls.dev.dmm_objs:
+                dm = ls.dev.register.define_detuning_map({q: 1.0 / ls.dev.nq for q in ls.dev.qids})
+                probes.append(("config_detuning_map", lambda: seq.config_detuning_map(dm, "dmm_0")))
+                probes.append(("config_slm_mask", lambda: seq.config_slm_mask([q0], "dmm_0")))
+                dmm_names = [n for n, s in seq._schedule.items() if isinstance(s.channel_obj, DMM)]
+                if dmm_names:
+                    from pulser.waveforms import ConstantWaveform as CW
+                    probes.append(("add_dmm_detuning", lambda: seq.add_dmm_detuning(CW(64, -1.0), dmm_names[0])))
+            for name, fn in probes:
+                before = ls.real.snapshot()
+                try:
+                    fn()
+                    raised = None
+                except Exception as e:  # noqa: BLE001
+                    raised = e
+                after = ls.real.snapshot()
+                changed = before["chans"] != after["chans"]
+                if changed:
+                    fails.append(self.F("timeline-changed-after-measure",
+                                        f"{name} after measure() changed the timeline"
+                                        + ("" if raised is None else f" (and raised {type(raised).__name__})"),
+                                        op=name, raised=raised is not None))
+        return fails
+
+
+MONITORS["C13"] = MonC13
+
+
+# ==========================================================================
+def mod2pi_close(a: float, b: float, tol=1e-9) -> bool:
+    d = abs(a - b) % TWO_PI
+    return min(d, TWO_PI - d) <= tol
+
+
+class PreAux:
+    """Facts of the real PRE-state needed to judge an add/target/align afterwards."""
+
+    def __init__(self, ls, op):
+        seq = ls.real.seq
+        self.aux = chan_aux(seq)
+        self.refs = {
+            b: {q: (list(r.phase._times), [float(p) for p in r.phase._phases], int(r.last_used))
+                for q, r in d.items()}
+            for b, d in seq._basis_ref.items()
+        }
+        self.est = None
+        self.durs = {}
+        with warnings.catch_warnings():
+            warnings.simplefilter("ignore")
+            if not seq.is_parametrized():
+                for name in seq._schedule:
+                    self.durs[name] = (seq.get_duration(name), seq.get_duration(name, include_fall_time=True))
+            if op["k"] == "add" and not seq.is_parametrized():
+                try:
+                    self.est = ("ok", int(seq.estimate_added_delay(make_pulse(op["pulse"]), real_name(op["ch"]), op["proto"])))
+                except Exception as e:  # noqa: BLE001
+                    self.est = ("err", type(e).__name__)
+
+
+class MonC03(Monitor):
+    """Addressing-conflict protocols: no conflict, minimal delay, exact estimate; align."""
+
+    prop = "C03"
+
+    def pre(self, ls, op):
+        self.p = PreAux(ls, op) if op["k"] in ("add", "addeom", "adddmm", "align") else None
+
+    def post(self, ls, st):
+        fails = []
+        op = st.op
+        k = op["k"]
+        if self.p is None or st.real[0] != "ok":
+            return fails
+        seq = ls.real.seq
+        if k == "align":
+            return self.post_align(ls, st)
+        name = real_name(op["ch"])
+        pre = self.p.aux.get(name)
+        if pre is None or not pre["slots"]:
+            return fails
+        ch = pre["ch"]
+        t0 = pre["end"]
+        my_targets = pre["slots"][-1][3]
+        new, _ = new_slots(st, op["ch"])
+        pulses = [s for s in new if s["k"] == "P"]
+        if not pulses:
+            return fails
+        ti_new = pulses[-1]["ti"]
+        proto = op["proto"]
+        basis = ch.basis
+        B = max([self.p.refs[basis][q][0][-1] for q in my_targets] + [0]) if basis in self.p.refs else 0
+        # ends of the most recent relevant pulse of every other channel (fall in that channel's current mode)
+        ends = []
+        for oname, a in self.p.aux.items():
+            if oname == name:
+                continue
+            for s in reversed(a["slots"]):
+                if s[0] != "P":
+                    continue
+                if proto == "wait-for-all" or (s[3] & my_targets):
+                    ends.append(s[2] + (s[5] if a["in_eom"] else s[4]))
+                    break
+        if proto in ("min-delay", "wait-for-all"):
+            for e in ends:
+                if ti_new < e:
+                    fails.append(self.F("conflict", f"{proto}: pulse starts at {ti_new} before another channel's pulse ends at {e}", op=k, proto=proto))
+            # earliest allowed instant (no drift-corrected EOM pulses: their compared phase is internal)
+            if not (k == "addeom" and op.get("corr")):
+                buf = 0
+                last_p = next((s for s in reversed(pre["slots"]) if s[0] == "P" and not s[6]), None)
+                if last_p is not None and not mod2pi_close(last_p[7], float(Fraction(pulses[-1]["ph"])), 0.0):
+                    fall = last_p[5] if pre["in_eom"] else last_p[4]
+                    buf = max(ch.phase_jump_time, 2 * ch.rise_time * int(pre["in_eom"])) + fall - (t0 - last_p[2])
+                need = max([t0, B] + ends) - t0
+                want = t0 + least_valid_gap(ch, max(need, buf))
+                if ti_new != want:
+                    fails.append(self.F("not-minimal", f"{proto}: pulse starts at {ti_new}, earliest allowed instant is {want}", op=k, proto=proto))
+        elif proto == "no-delay":
+            want = t0 + least_valid_gap(ch, max(t0, B) - t0)
+            if ti_new != want:
+                fails.append(self.F("no-delay-start", f"no-delay: pulse starts at {ti_new}, expected {want}", op=k))
+            elif ti_new != max(t0, B):
+                fails.append(self.F("no-delay-literal", f"no-delay: pulse starts at {ti_new}, not at max(end, barrier)={max(t0, B)} "
+                                    f"(the gap {max(t0, B) - t0} is not a valid delay on this channel)", op=k))
+        if k == "add" and self.p.est is not None:
+            if self.p.est[0] != "ok" or self.p.est[1] != ti_new - t0:
+                fails.append(self.F("estimate", f"estimate_added_delay={self.p.est} but the add inserted {ti_new - t0}", op=k))
+        return fails
+
+    def post_align(self, ls, st):
+        fails = []
+        op = st.op
+        at_rest = op.get("at_rest", True)
+        names = [real_name(c) for c in op["chs"]]
+        if any(n not in self.p.durs for n in names):
+            return fails
+        T = max(self.p.durs[n][1 if at_rest else 0] for n in names)
+        seq = ls.real.seq
+        ends = {}
+        for n in names:
+            ch = seq._schedule[n].channel_obj
+            e0 = self.p.durs[n][0]
+            ends[n] = seq.get_duration(n)
+            want = e0 + least_valid_gap(ch, T - e0)
+            if ends[n] != want:
+                lit = ends[n] < T
+                fails.append(self.F("align-end", f"align(at_rest={at_rest}): {n} ends at {ends[n]}, expected {want} (latest end {T})",
+                                    op="align", at_rest=at_rest, before_latest=lit))
+        if len(set(ends.values())) != 1 and not fails:
+            fails.append(self.F("align-literal", f"aligned channels end at {sorted(ends.values())} (gaps below the minimum duration / off the clock grid cannot be inserted)", op="align"))
+        return fails
+
+
+MONITORS["C03"] = MonC03
+
+
+class MonC10(Monitor):
+    """Phase-jump time and retarget intervals are honoured."""
+
+    prop = "C10"
+
+    def pre(self, ls, op):
+        self.p = PreAux(ls, op) if op["k"] in ("add", "addeom", "target", "declare") else None
+
+    def post(self, ls, st):
+        fails = []
+        op = st.op
+        k = op["k"]
+        if self.p is None or st.real[0] != "ok":
+            return fails
+        name = real_name(op["ch"])
+        pre = self.p.aux.get(name)
+        new, n0 = new_slots(st, op["ch"])
+        if k in ("add", "addeom"):
+            if pre is None or op["proto"] == "no-delay" or (k == "addeom" and op.get("corr")):
+                return fails
+            ch = pre["ch"]
+            pulses = [s for s in new if s["k"] == "P"]
+            last_p = next((s for s in reversed(pre["slots"]) if s[0] == "P" and not s[6]), None)
+            if pulses and last_p is not None:
+                ph_new = float(Fraction(pulses[-1]["ph"]))
+                if last_p[7] != ph_new:
+                    fall = last_p[5] if pre["in_eom"] else last_p[4]
+                    base = max(ch.phase_jump_time, 2 * ch.eom_config.rise_time) if pre["in_eom"] else ch.phase_jump_time
+                    gap = pulses[-1]["ti"] - last_p[2]
+                    if gap < base + fall:
+                        fails.append(self.F("phase-jump-gap", f"pulses of phase {last_p[7]} and {ph_new} are {gap} ns apart, "
+                                            f"need phase-jump time {base} + fall {fall}", op=k, in_eom=pre["in_eom"],
+                                            eom_slower=bool(pre["in_eom"] and ch.eom_config.rise_time > ch.rise_time)))
+        else:  # target / declare with initial target
+            ch = (pre or {}).get("ch") or ls.real.chobj(op["ch"])
+            if ch is None or ch.addressing != "Local":
+                return fails
+            tslots = [s for s in new if s["k"] == "T"]
+            prev_slots = pre["slots"] if pre else []
+            qs = set(ls.dev.qids[i] for i in (op["qs"] if k == "target" else (op.get("init") or [])) if i < ls.dev.nq)
+            if prev_slots and prev_slots[-1][3] == qs:
+                if new and k == "target":
+                    fails.append(self.F("same-target-noop", f"retargeting to the same atoms inserted {[(s['k'], s['ti'], s['tf']) for s in new]}", op=k))
+                return fails
+            for t in tslots:
+                if t["ti"] == -1:
+                    continue
+                prev_t = next((s for s in reversed(prev_slots) if s[0] == "T"), None)
+                if prev_t is not None and t["tf"] - prev_t[2] < (ch.min_retarget_interval or 0):
+                    fails.append(self.F("retarget-interval", f"target ends {t['tf'] - prev_t[2]} ns after the previous target end, minimum {ch.min_retarget_interval}", op=k))
+                if t["tf"] - t["ti"] < (ch.fixed_retarget_t or 0):
+                    fails.append(self.F("fixed-retarget", f"retarget lasts {t['tf'] - t['ti']} < fixed_retarget_t {ch.fixed_retarget_t}", op=k))
+                lastp = next((s for s in reversed(prev_slots) if s[0] == "P"), None)
+                if lastp is not None and lastp[2] + lastp[4] > t["ti"]:
+                    fails.append(self.F("retarget-before-fall", f"retarget begins at {t['ti']} before the previous pulse has ramped down ({lastp[2]}+{lastp[4]})", op=k))
+        return fails
+
+
+MONITORS["C10"] = MonC10
